@@ -14,11 +14,15 @@ K_ASSUMPTIONS = [
 ]
 
 
-def kh(name, about, bound, stubs=(), quick=300, thorough=None, only=None):
+def kh(name, about, bound, stubs=(), quick=300, thorough=None, only=None, mem_gb=None):
     d = {"name": name, "about": about, "bound": bound, "stubs": list(stubs)}
     if only != "thorough":
         d["quick"] = {"timeout": quick}
     d["thorough"] = {"timeout": thorough or max(quick, 900)}
+    if mem_gb:
+        for t in ("quick", "thorough"):
+            if t in d:
+                d[t]["mem_gb"] = mem_gb
     return d
 
 
@@ -118,7 +122,7 @@ PROPS = {
             {"engine": "D", "crate": "d_reg", "harnesses": [
                 {"name": "c06_limits", "covers": ["accepted", "rejected", "merged"], "quick": {"max_paths": 1000, "timeout": 300}},
                 {"name": "c06_auth", "covers": ["accepted", "rejected"], "quick": {"max_paths": 1000, "timeout": 300}},
-                {"name": "c06_converge", "covers": ["delivered"], "quick": {"max_paths": 1000, "timeout": 600}},
+                {"name": "c06_converge", "covers": ["delivered", "same_entry_two_writers"], "quick": {"max_paths": 1000, "timeout": 600}},
             ]},
         ],
         "assumptions": [
@@ -222,7 +226,7 @@ PROPS = {
                 {"name": "c13_expiry", "covers": ["expired", "valid"], "quick": {"max_paths": 1000, "timeout": 600}},
                 {"name": "c13_binding", "covers": ["altered"], "quick": {"max_paths": 1000, "timeout": 600}},
                 {"name": "c13_proof", "covers": ["verifies", "fails"], "quick": {"max_paths": 1000, "timeout": 600}},
-                {"name": "c13_historical", "covers": ["inconsistent", "consistent"], "quick": {"max_paths": 1000, "timeout": 600}},
+                {"name": "c13_historical", "covers": ["inconsistent", "consistent", "both_in_the_past", "dated_ahead_of_the_verifier_clock"], "quick": {"max_paths": 1000, "timeout": 600}},
             ]},
         ],
         "assumptions": NODE_ASSUMPTIONS[:3] + ["real rmp_serde encodes the (concrete) quoting metrics inside bytes_for_signing; single-field alterations are one representative altered value per field, except the timestamp, which is any different symbolic instant"],
@@ -233,7 +237,7 @@ PROPS = {
         "parts": [
             {"engine": "D", "crate": "d_node", "harnesses": [
                 {"name": "c15_chunk", "covers": ["returned", "error"], "quick": {"max_paths": 1000, "timeout": 300}},
-                {"name": "c15_vault", "covers": ["returned", "error"], "quick": {"max_paths": 10000, "timeout": 600}},
+                {"name": "c15_vault", "covers": ["returned", "error", "error_reply_with_record_refused"], "quick": {"max_paths": 10000, "timeout": 600}},
             ]},
         ],
         "assumptions": NODE_ASSUMPTIONS[:1] + [
@@ -279,7 +283,7 @@ PROPS = {
                 kh("c17_port_range_validate_never_overflows", "PortRange::validate for every start/end/count", "all u16 triples"),
                 kh("c17_port_range_parse_len1", "PortRange::parse on every 1-character ASCII string", "length 1", quick=300),
                 kh("c17_port_range_parse_len2", "PortRange::parse on every 2-character ASCII string", "length 2", quick=600),
-                kh("c17_port_range_parse_len3", "PortRange::parse on every 3-character ASCII string", "length 3", thorough=2400, only="thorough"),
+                kh("c17_port_range_parse_len3", "PortRange::parse on every 3-character ASCII string", "length 3", thorough=2400, only="thorough", mem_gb=24),
                 kh("c17_check_port_availability_exact", "check_port_availability agrees with the recorded ports (ranges of <= 3 ports, incl. ending at 65535)", "all u16 values, one recorded node", quick=600),
             ] + [
                 kh(f"c17_decrypt_private_key_decoded_len{n}", f"decrypt_private_key when the stored text decodes to {n} bytes", f"all contents, decoded length {n}", ["hex::decode -> vector of that length", "ring pbkdf2/aead -> arbitrary outcome (FFI)", "String::from_utf8 -> Ok"])
@@ -318,6 +322,7 @@ PROPS = {
                 {"name": "c18_ops", "covers": ["add_new", "cleanup"], "quick": {"max_paths": 200000, "timeout": 900}, "thorough": {"env": {"C18_OPS": 4}, "max_paths": 3000000, "timeout": 3400}},
                 {"name": "c18_shapes", "covers": ["stored", "refused"], "quick": {"max_paths": 1000, "timeout": 300}},
                 {"name": "c18_sync_flush", "covers": ["merge_with_cleanup", "merge_without_cleanup", "overlap"], "quick": {"max_paths": 100000, "timeout": 600}},
+                {"name": "c18_concurrent_flush", "covers": ["interleaved", "not_interleaved"], "quick": {"max_paths": 10000, "timeout": 600}},
                 {"name": "c18_corrupt", "covers": ["loaded_corrupt"], "quick": {"max_paths": 1000, "timeout": 300}},
                 {"name": "c18_untrusted_file", "covers": ["loaded"], "quick": {"max_paths": 10000, "timeout": 300}},
             ]},
